@@ -280,15 +280,22 @@ func (t *Object) implements(it *Interface) bool {
 	return false
 }
 
+// baseType returns the type with the pointers removed.
+func baseType(rt reflect.Type) reflect.Type {
+	for rt != nil && rt.Kind() == reflect.Ptr {
+		rt = rt.Elem()
+	}
+	return rt
+}
+
 func (t *Object) metaCheck(rt reflect.Type) (reflect.Type, error) {
 	verifYield("metaCheck")
 	t.mu.Lock()
 	defer t.mu.Unlock()
+	// The type without the pointers is what is bound, a value and a pointer
+	// to it are the same object type.
+	bt := baseType(rt)
 	if t.meta == nil {
-		bt := rt
-		for bt.Kind() == reflect.Ptr {
-			bt = bt.Elem()
-		}
 		du := t.GetDirective("go")
 		if du != nil && du.Args != nil {
 			if a := du.Args["type"]; a != nil {
@@ -299,11 +306,11 @@ func (t *Object) metaCheck(rt reflect.Type) (reflect.Type, error) {
 				if s == bt.PkgPath()+"."+bt.Name() ||
 					s == bt.String() ||
 					s == bt.Name() {
-					t.meta = rt
+					t.meta = bt
 				}
 			}
 		} else if t.N == bt.Name() { // If no @go directive then try using the GraphQL type name.
-			t.meta = rt
+			t.meta = bt
 		}
 	}
 	if t.meta == nil {
